@@ -3,4 +3,4 @@
 cd /verif
 par=${1:-3}
 ALL=C01,C02,C03,C04,C05,C06,C07,C08,C09,C10,C11,C12,C13,C14,C15,C16,C17,C18,C19,C20
-ls -d seeded/*/ | sed 's#/$##' | xargs -P "$par" -I{} sh -c "python3 tools/seedcheck.py {} --props $ALL > {}/matrix.json 2> tmp/\$(basename {}).matrix.err; python3 -c \"import json,sys; d=json.load(open('{}/matrix.json')); print('{}', d.get('caught_by'))\""
+ls -d seeded/*/ | sed 's#/$##' | xargs -P "$par" -I{} sh -c "python3 tools/seedcheck.py {} --props $ALL > {}/matrix.json.tmp 2> tmp/\$(basename {}).matrix.err && mv {}/matrix.json.tmp {}/matrix.json; python3 -c \"import json,sys; d=json.load(open('{}/matrix.json')); print('{}', d.get('caught_by'))\""
